@@ -137,8 +137,15 @@ def run_shard(ctx):
                 _transfer(_st, odb, {obj.hash_info}, shallow=True, hardlink=False)
                 res.count("shallow_transfers_before_the_full_one")
                 cfgd["shallow_first"] = True
+            hook_ = {}
+            if rng.random() < 0.2:
+                # the caller watches the status through a hook that returns a value (the library's own hook returns None): no effect
+                back_ = rng.choice(["False", "bool(missing)", "status"])
+                hook_ = {"validate_status": {"False": lambda st_: False, "bool(missing)": lambda st_: bool(st_.missing), "status": lambda st_: st_}[back_]}
+                res.count("transfers_with_a_value_returning_status_hook")
+                cfgd["status_hook_returns"] = back_
             try:
-                r = _transfer(_st, odb, {obj.hash_info}, shallow=False, hardlink=False)
+                r = _transfer(_st, odb, {obj.hash_info}, shallow=False, hardlink=False, **hook_)
             finally:
                 os.chdir("/")
             if r.failed:
